@@ -51,7 +51,7 @@ class SubCtx(ReqCtx):
 
     __slots__ = ("worlds", "sub_calls", "sub_kwargs", "source", "make_source",
                  "sub_async", "events_seen", "next_calls", "sub_root",
-                 "event_values")
+                 "event_values", "src_waiting")
 
     def select_event(self, event):
         # events of one subscription are processed one at a time, in order;
@@ -78,7 +78,11 @@ class PullSource:
         ctx.log("src_next", None, (self.sub, self.i))
         if self.i >= len(self.delays):
             raise StopAsyncIteration()
-        await ctx.loop.sleep(self.delays[self.i])
+        ctx.src_waiting = True
+        try:
+            await ctx.loop.sleep(self.delays[self.i])
+        finally:
+            ctx.src_waiting = False
         ev = ctx.event_values[self.i]
         ctx.log("src_emit", None, (self.sub, self.i))
         self.i += 1
@@ -109,7 +113,11 @@ class QueueSource:
     async def __anext__(self):
         self.ctx.next_calls += 1
         self.ctx.log("src_next", None, (self.sub, -1))
-        item = await self.q.get()
+        self.ctx.src_waiting = True
+        try:
+            item = await self.q.get()
+        finally:
+            self.ctx.src_waiting = False
         if item is self._END:
             self.q.put_nowait(self._END)
             raise StopAsyncIteration()
@@ -150,7 +158,8 @@ def _subscription_resolver(root, ctx, info, **kwargs):
 class SubPlan:
     __slots__ = ("idx", "op", "text", "n", "delays", "pauses", "source_kind",
                  "sub_async", "faults", "wseeds", "exps", "scenario",
-                 "initial_value", "async_for", "event_values")
+                 "initial_value", "async_for", "event_values",
+                 "read_timeouts")
 
 
 REFUSALS = ("two-fields", "two-aliases", "two-via-fragment",
@@ -254,6 +263,15 @@ def _plan(draws, spec, idx, scenario):
     plan.source_kind = SOURCES[rs.below(len(SOURCES), "source")]
     plan.initial_value = ("IV%d" % idx) if rs.below(2, "initial") else None
     plan.async_for = bool(rs.below(2, "async_for"))
+    # Fault: the consumer gives up on a read (timeout / keep-alive pattern)
+    # while the source is still waiting for its next event, then reads again.
+    # Only for sources whose __anext__ is safe to cancel (an async generator
+    # is finalised by a cancelled read, so nothing is promised for it).
+    plan.read_timeouts = []
+    if plan.source_kind != "agen" and not plan.async_for and \
+            rs.chance(1, 3, "cancel_reads"):
+        plan.read_timeouts = [DELAYS[rs.below(len(DELAYS), "read_timeout")]
+                              for _ in range(1 + rs.below(6, "n_timeouts"))]
     plan.sub_async = None
     if rs.chance(1, 2, "sub_async"):
         plan.sub_async = DELAYS[rs.below(len(DELAYS), "sub_lat")]
@@ -363,6 +381,7 @@ def run_case(draws, prop, tier="quick"):
         ctx.sub_async = plan.sub_async
         ctx.events_seen = []
         ctx.next_calls = 0
+        ctx.src_waiting = False
         ctx.make_source = lambda: {
             "pull": lambda: PullSource(ctx, plan.idx, plan.delays),
             "queue": lambda: QueueSource(ctx, plan.idx, plan.delays),
@@ -411,10 +430,28 @@ def run_case(draws, prop, tier="quick"):
             return
         it = stream.__aiter__()
         k = 0
+        timeouts = list(plan.read_timeouts)
+
+        async def read():
+            while timeouts:
+                t = loop.create_task(it.__anext__())
+                await loop.sleep(timeouts.pop())
+                if t.done() or not ctx.src_waiting:
+                    # too late to give up: the event left the source
+                    return await t
+                t.cancel()
+                try:
+                    return await t
+                except asyncio.CancelledError:
+                    kernel.log.add("read_cancelled", None, (plan.idx, k))
+                    ctx.stats["read_cancelled"] = \
+                        ctx.stats.get("read_cancelled", 0) + 1
+            return await it.__anext__()
+
         while True:
             await loop.sleep(plan.pauses[min(k, plan.n)])
             try:
-                r = await it.__anext__()
+                r = await read()
             except StopAsyncIteration:
                 got.append(("end", None))
                 break
@@ -628,6 +665,7 @@ def run_case(draws, prop, tier="quick"):
             "text": p.text, "variables": p.op.variables, "events": p.n,
             "delays": p.delays, "pauses": p.pauses, "source": p.source_kind,
             "async_subscription_resolver": p.sub_async,
+            "read_timeouts": p.read_timeouts,
             "faults": [{"/".join(map(str, k)): v for k, v in f.items()}
                        for f in p.faults],
         } for p in plans],
